@@ -146,11 +146,11 @@ def descriptions():
     return _CACHE["d"]
 
 
-def serialise_plain(desc):
-    """Stream description -> bytes using the plain Serialiser (no autofill, no defaults)."""
+def serialise_plain(desc, defaults=False):
+    """Stream description -> bytes using the plain Serialiser (no autofill; defaults only on request)."""
     f = BytesIO()
     w = B.BitstreamWriter(f)
-    with B.Serialiser(w, desc) as ser:
+    with (B.Serialiser(w, desc, B.vc2_default_values) if defaults else B.Serialiser(w, desc)) as ser:
         B.parse_stream(ser, State())
     w.flush()
     return f.getvalue()
